@@ -887,11 +887,13 @@ def _simplify(op):
     """smaller variants of one op: shorter byte strings, smaller numbers"""
     out = []
     for i, x in enumerate(op):
+        if i == 0:
+            continue
         if isinstance(x, str) and x:
             for y in (x[:-2], x[2:], "00" * (len(x) // 2)):
                 if y != x:
                     out.append(op[:i] + [y] + op[i + 1:])
-        elif isinstance(x, int) and not isinstance(x, bool) and i > 0 and abs(x) > 1:
+        elif isinstance(x, int) and not isinstance(x, bool) and abs(x) > 1:
             out.append(op[:i] + [x // 2] + op[i + 1:])
         elif isinstance(x, list) and len(x) > 1:
             out.append(op[:i] + [x[1:]] + op[i + 1:])
